@@ -198,9 +198,9 @@ func (d *Decls) fun(name string, args []string, res string) string {
 func (d *Decls) app(name string, args []string, argSorts []string, res string) string {
 	name = d.fun(name, argSorts, res)
 	if len(args) == 0 {
-		return "(" + name + ")"
+		return smtName(name)
 	}
-	return "(" + name + " " + strings.Join(args, " ") + ")"
+	return "(" + smtName(name) + " " + strings.Join(args, " ") + ")"
 }
 
 func (d *Decls) smt() string {
